@@ -673,13 +673,24 @@ def build_unit(unit, outdir, ghost_override=None, variant=None):
                 hdr, first, last, sig, tail = [x.strip() for x in rest_.split(";;")]
                 whole, f0, _f1 = extract_item(srcfile, hdr, 0)
                 wl = whole.split("\n")
+                # `<last line> +N`: N more lines after the anchor line (closing braces of a tail expression)
+                more = 0
+                mm = re.match(r"(.*\S)\s+\+(\d+)$", last)
+                if mm:
+                    last, more = mm.group(1), int(mm.group(2))
                 try:
                     i0 = next(k for k, l in enumerate(wl) if l.strip() == first)
-                    i1 = next(k for k, l in enumerate(wl) if k >= i0 and l.strip() == last)
+                    i1 = next(k for k, l in enumerate(wl) if k >= i0 and l.strip() == last) + more
                 except StopIteration:
                     raise Undecided("lost slice anchor in %s (%s): `%s` .. `%s`" % (srcfile, label, first, last))
                 body = dedent("\n".join(wl[i0:i1 + 1]))
-                raw = sig + " {\n" + "\n".join("    " + l if l.strip() else l for l in body.split("\n")) + "\n    " + tail + "\n}"
+                ind_body = "\n".join("    " + l if l.strip() else l for l in body.split("\n"))
+                if "@" in tail:
+                    # the sliced lines are an expression: `Ok(@)` wraps them as a block expression
+                    pre, post = tail.split("@", 1)
+                    raw = sig + " {\n    " + pre + "{\n" + ind_body + "\n    }" + post + "\n}"
+                else:
+                    raw = sig + " {\n" + ind_body + "\n    " + tail + "\n}"
                 l0, l1 = f0 + i0, f0 + i1
                 report.setdefault("slices", []).append({"label": label, "file": "src/" + srcfile, "lines": [l0, l1],
                     "of_function": hdr, "signature": sig, "tail": tail,
